@@ -140,7 +140,7 @@ func structIn(t *model.T) string {
 	return ""
 }
 
-var budgets = []int{40, 120, 120, 300, 300, 600, 600, 1500, 5000, 20000, 70000}
+var budgets = []int{40, 120, 120, 300, 300, 600, 600, 1500, 5000, 20000, 70000, 120000}
 
 func (b *Bank) pickValid(r *model.Rng) *model.StructDef { return b.valid[r.Intn(len(b.valid))] }
 
